@@ -115,4 +115,13 @@ TEXTS = {
   "note": "Trusted: Lean kernel, UCI model (validated per line), harness/driver, OS process handling for the process-level part. read_line on invalid UTF-8 is handled in the code (skip) but not in the model (ASCII sessions).",
   "technique": "Lean 4 proof (case analysis of the parser with explicit partial slices; induction over sessions) + differential correspondence + process-level runs",
  },
+ "C10": {
+  "level": "Lean theorems over an interleaving model of the two-thread protocol (input thread x search thread x one shared flag), for EVERY script and EVERY schedule of any length: a processed stop is never "
+           "overwritten and the stopped search executes no further node; once the answer is being printed the flag is already cleared so the next go is accepted (at once or after waiting for the thread to exit), "
+           "never refused; every go is accepted, explicitly refused or still pending and every accepted go is answered exactly once. The same model refutes both clauses for the protocol before the fix: commits "
+           "(kernel-checked witnesses). Tied to the code: forced schedules on the real binary through the labelled schedule points; the realised order is replayed on the model.",
+  "note": "PARTIAL for wall-clock promptness and OS fairness. Trusted: Lean kernel, the protocol model (its atomic steps are the hook's labelled points; tied by replaying realised traces), hooks, procdrive.py, OS scheduling. "
+          "Stderr label order is repaired by two causal facts (a go precedes its thread's entry; an infinite search cannot finish before a stop) because a label is printed after its command's effect.",
+  "technique": "Lean 4 proof (invariant induction over arbitrary schedules) + forced-schedule runs of the real binary with trace replay on the model",
+ },
 }
